@@ -592,7 +592,11 @@ def judge_monitor(ctx, mon, world):
         if suffix == ".pyi":
             ctx.fail("M-resolve-stub-alias", f"merging resolved stub-side alias {cpath}.{alias.name} -> {alias.target_path}", tags=["stub-side"])
             return
-        if alias.name not in defs.get(cpath, ()):
+        # stubs may sit at the public location of a re-exported class (pkg.sub.C for pkg._impl.C): a re-declaration
+        # in a stub class of that name counts for the class the re-export leads to
+        last = cpath.rsplit(".", 1)[-1]
+        elsewhere = set().union(*[names for path, names in defs.items() if "." in path and path.rsplit(".", 1)[-1] == last and cpath.startswith(world["top"] + "._impl.")] or [set()])
+        if alias.name not in defs.get(cpath, ()) and alias.name not in elsewhere:
             ctx.fail("M-resolve-runtime-alias", f"merging resolved runtime alias {cpath}.{alias.name} -> {alias.target_path} although the stubs do not re-declare it", tags=["runtime-side"])
             return
         ctx.probe("merge-into-alias-target")
@@ -849,7 +853,7 @@ def execute(plan, ctx):
     n_both = sum(1 for s in world["modules"].values() if s["rt"] and s["st"])
     ctx.probe(f"placement-{world['placement']}")
     if world.get("compiled"):
-        ctx.probe("compiled-runtime-modules-with-stubs", sum(1 for mp in world["compiled"] if world["modules"][mp]["st"]))
+        ctx.probe("compiled-runtime-modules-with-stubs", sum(1 for mp in world["compiled"] if world["modules"].get(mp, {}).get("st")))
     ctx.probe("modules-with-both-sides", n_both)
     ctx.cover.append((world["placement"], core.hash_key(trees[0][1]) if trees else 0, len(plan["schedules"])))
 
